@@ -55,11 +55,13 @@ def gen_u8_sweeps(tier, seed):
     for b0 in range(0, 256, 32):
         cs.append(X('u8.l2.%02X' % b0, 3, mode='u8sweep', len=2, b0lo=b0, b0hi=b0 + 31, splits=1, base=1))
     # 3 bytes, ASCII or continuation lead: padded only (the bare form is a stream of shorter sequences)
-    for b0 in range(0, 0xC0, 4):
-        cs.append(X('u8.l3.%02X' % b0, 8, mode='u8sweep', len=3, b0lo=b0, b0hi=b0 + 3, bare=0, splits=1 if thorough else 0, base=1))
+    st = 2 if thorough else 4
+    for b0 in range(0, 0xC0, st):
+        cs.append(X('u8.l3.%02X' % b0, 8, mode='u8sweep', len=3, b0lo=b0, b0hi=b0 + st - 1, bare=0, base=1))
     # 3 bytes, lead C0..FF: bare (end of input semantics) and padded
-    for b0 in range(0xC0, 0x100, 2):
-        cs.append(X('u8.l3.%02X' % b0, 8, mode='u8sweep', len=3, b0lo=b0, b0hi=b0 + 1, splits=1 if thorough else 0, base=1))
+    st = 1 if thorough else 2
+    for b0 in range(0xC0, 0x100, st):
+        cs.append(X('u8.l3.%02X' % b0, 8, mode='u8sweep', len=3, b0lo=b0, b0hi=b0 + st - 1, splits=1 if thorough else 0, base=1))
     if not thorough:
         # every split position x maxChars 1..4 where a continuation byte follows the lead
         for b0 in range(0xC0, 0x100, 4):
@@ -980,7 +982,8 @@ def judge(ck, cases, recs, groups):
             w = {'case': c.to_json()}
             w.update(extra)
             ck.violation(key, what, w)
-        if mode == 'str' and len(ck.samples) < 3 and c.opt['enc'] == 'UTF-8' and c.opt['dir'] == 'from' and len(c.steps[0][1]) < 24:
+        if mode == 'str' and len(ck.samples) < 3 and c.opt['enc'] == 'UTF-8' and c.opt['dir'] == 'from' and 3 < len(c.steps[0][1]) < 24 and \
+                sum(1 for b in c.steps[0][1] if b >= 0x80) >= 3 and xcref.dec_utf8(c.steps[0][1]).status == ('ok', 'err', 'trunc')[len(ck.samples)]:
             ck.sample({'case': c.id, 'encoding': 'UTF-8', 'bytes': c.steps[0][1].hex(), 'expected': repr(xcref.dec_utf8(c.steps[0][1])), 'observed': [l for l in r.lines if l[:2] in ('R\t', 'V\t', 'H\t')]})
     judge_docs(ck, by_group, groups)
     # ---- coverage bookkeeping / completeness of the enumerations ----
